@@ -1,13 +1,11 @@
-"""Per-property configuration of ./check (bins, drivers, translators, which ops the property determines)."""
+"""Per-property configuration of ./check, loaded from props.d/Cxx.json ({"props": {...}, "manifest": {...}})."""
+import json, os, glob
 
-PROPS = {
-    "C11": {
-        "determined_ops": ["extend", "contract", "split", "join"],
-        "determined_by": "extend_frame, extend_toplevel, extend_nested, extend_fails_missing_outer, contract_spec, split_join, join_split",
-        "assumptions": [
-            "model FeatherModel/Model/InnerNames.lean is hand written; tied to quill/src/action/extend_inner_class_names.rs and "
-            "duke ObjClassNameSlice::split_inner_class_parent_and_name by the correspondence run",
-            "strings are modelled as lists of code points; mapping sets fed to the implementation have consistent keys",
-        ],
-    },
-}
+_D = os.path.join(os.path.dirname(os.path.abspath(__file__)), "props.d")
+PROPS = {}
+MANIFEST_TEXT = {}
+for _f in sorted(glob.glob(os.path.join(_D, "C*.json"))):
+    _pid = os.path.basename(_f)[:-5]
+    _j = json.load(open(_f))
+    PROPS[_pid] = _j.get("props", {})
+    MANIFEST_TEXT[_pid] = _j["manifest"]
